@@ -124,6 +124,12 @@ func NewRouterInfo(
 ) (*RouterInfo, error) {
 	log.Debug("Creating new RouterInfo")
 
+	// Same rule as RouterInfo.Validate: a RouterInfo without addresses is not valid,
+	// so the constructor must not return one.
+	if len(addresses) == 0 {
+		return nil, oops.Errorf("router must have at least one address")
+	}
+
 	publishedDate, err := createPublishedDate(publishedTime)
 	if err != nil {
 		return nil, err
